@@ -56,8 +56,11 @@ def cases(tier, seed):
                     continue
                 out.append(dict(kind="machine", start=st, ops=[list(o) for o in seq], cap=cap, thr=thr, sw=list(SWS[k % 4]), seed=seed))
     for pat in range(7):
-        for shape in ([1, 1], [2, 1], [2, 3], [3, 2]):
+        for shape in ([1, 1], [2, 1], [2, 3], [3, 2], [12, 2]):
             out.append(dict(kind="stats", pat=pat, shape=shape, seed=seed))
+    for C in (1, 2, 5, 10, 11, 12, 23):
+        for D in (1, 3):
+            out.append(dict(kind="legacy_many", C=C, D=D, seed=seed))
     return out
 
 
@@ -188,6 +191,30 @@ def _machine_case(case, c, tmp):
         c.transitions += 1
         compare(tgt, f"load() into a {shape} machine")
         settings(tgt, f"load() into a {shape} machine")
+    # load() into an existing machine of the *other* trainer kind (it has the UBM), then train both further
+    if ubm is not None or True:
+        u2 = ubm
+        if u2 is None:
+            u2 = GMMMachine(2, weights=np.asarray(g.weights, float).copy())
+            u2.means, u2.variances = np.asarray(g.means, float) + 0.5, np.asarray(g.variances, float) * 2.0
+        other = GMMMachine(2, ubm=u2) if g.trainer == "map" else GMMMachine(2, trainer="map", ubm=u2)
+        f = h5py.File(paths[0], "r")
+        other.load(f)
+        f.close()
+        c.transitions += 1
+        if compare(other, "load() into a machine of the other trainer kind"):
+            c.check(other.trainer == g.trainer, "settings", f"load() into a machine of the other trainer kind: trainer {other.trainer!r} != {g.trainer!r}", tags)
+            a2, b2 = copy.deepcopy(g), other
+            for mm in (a2, b2):
+                mm.max_fitting_steps, mm.convergence_threshold = 2, None
+                mm.update_means, mm.update_variances, mm.update_weights = True, False, True
+            if g.trainer == "map" or a2.ubm is None:
+                a2.fit(X.copy())
+                b2.fit(X.copy())
+                c.transitions += 2
+                for nm in ("weights", "means", "variances"):
+                    c.close(np.asarray(getattr(b2, nm), float), np.asarray(getattr(a2, nm), float), "trains_identically",
+                            f"{nm} after further training of a machine that was load()ed into an object of the other trainer kind", tags, rtol=1e-12)
     # behaviour: train the original and the reloaded object further, they must agree
     a, b = copy.deepcopy(g), GMMMachine.from_hdf5(paths[0], ubm=ubm)
     if a.max_fitting_steps is None:
@@ -273,9 +300,11 @@ def _stats_case(case, c, tmp):
     h = GMMStats.from_hdf5(f)
     f.close()
     compare(h, "open file")
-    for shape in ((C, D), (C + 1, D), (1, D + 2)):
+    for shape, dt in (((C, D), float), ((C + 1, D), float), ((1, D + 2), float), ((C, D), np.float32), ((C, D), np.int64)):
         tgt = GMMStats(*shape)
-        tgt.n = tgt.n + 9.0
+        tgt.n = (tgt.n + 9.0).astype(dt)  # a container that previously held values of another precision / type
+        tgt.sum_px = tgt.sum_px.astype(dt)
+        tgt.sum_pxx = (tgt.sum_pxx + 1).astype(dt)
         tgt.t = 99
         f = h5py.File(p, "r")
         tgt.load(f)
@@ -295,12 +324,61 @@ def _stats_case(case, c, tmp):
     compare(GMMStats.from_hdf5(pl), "legacy-format statistics file")
 
 
+def _legacy_many_case(case, c, tmp):
+    """Legacy and current files of one machine with many components (group names m_gaussians10.. sort before m_gaussians2)."""
+    import h5py
+
+    from bob.learn.em import GMMMachine
+
+    C, D = case["C"], case["D"]
+    s, o = affine(case["seed"])
+    g = GMMMachine(C, weights=(np.arange(1, C + 1, dtype=float) / (C * (C + 1) / 2)))
+    g.means = (np.arange(C * D, dtype=float).reshape(C, D) * 1.5 - 3.0) * s + o
+    thr = (0.125 + 0.0625 * (np.arange(C * D).reshape(C, D) % 3)) * s * s
+    g.variance_thresholds = thr
+    g.variances = (0.25 + 0.5 * (np.arange(C * D).reshape(C, D) % 5)) * s * s
+    P = (np.arange(4 * D, dtype=float).reshape(4, D) * 2.0 - 1.0) * s + o
+    pc, pl = os.path.join(tmp, "cur.h5"), os.path.join(tmp, "leg.h5")
+    g.save(pc)
+    with h5py.File(pl, "w") as f:
+        f["m_n_gaussians"] = np.array([C], dtype=np.int64)
+        f["m_n_inputs"] = np.array([D], dtype=np.int64)
+        f["m_weights"] = np.asarray(g.weights, float).reshape(1, C)
+        for i in range(C):
+            grp = f.create_group(f"m_gaussians{i}")
+            grp["m_mean"] = np.asarray(g.means, float)[i]
+            grp["m_variance"] = np.asarray(g.variances, float)[i]
+            grp["m_variance_thresholds"] = thr[i]
+    cur = GMMMachine.from_hdf5(pc)
+    tags = dict(trainer="legacy_many")
+    for how in ("path", "open file", "load"):
+        if how == "path":
+            leg = GMMMachine.from_hdf5(pl)
+        elif how == "open file":
+            f = h5py.File(pl, "r")
+            leg = GMMMachine.from_hdf5(f)
+            f.close()
+        else:
+            leg = GMMMachine(2)
+            f = h5py.File(pl, "r")
+            leg.load(f)
+            f.close()
+        c.transitions += 1
+        for nm in ("weights", "means", "variances", "variance_thresholds"):
+            c.check(_eq(np.asarray(getattr(leg, nm), float), np.asarray(getattr(cur, nm), float)), "legacy_equals_current",
+                    lambda: f"legacy file with {C} components read via {how}: {nm} differs from the current-format counterpart", tags)
+        c.check(_eq(leg.log_likelihood(P), g.log_likelihood(P)), "legacy_equals_current", f"legacy file with {C} components read via {how}: scores differ", tags)
+
+
 def run_case(case):
     c = Ctx()
     base = "/dev/shm" if os.path.isdir("/dev/shm") and os.access("/dev/shm", os.W_OK) else None
     tmp = tempfile.mkdtemp(prefix="c18_", dir=base)
     try:
-        if case["kind"] == "machine":
+        if case["kind"] == "legacy_many":
+            _legacy_many_case(case, c, tmp)
+            nontrivial, sig = case["C"] >= 2, "legacy|%d|%d" % (case["C"], case["D"])
+        elif case["kind"] == "machine":
             _machine_case(case, c, tmp)
             nontrivial = bool(case["ops"]) or case["cap"] != 200 or case["thr"] != 1e-5
             sig = "%s|%r|%r|%r|%r" % (case["start"], case["ops"], case["cap"], case["thr"], case["sw"])
